@@ -458,6 +458,32 @@ func ruleSnapPick() *Rule {
 	}
 }
 
+// ruleSnapVisible: the part of SNAP-PICK that says WHICH directories count as snapshots at all, for the properties
+// about what a snapshot contains (C10) and what a restart restores from (C14): a directory still being written
+// (NewSnapshotFile's temporary directory, before Close renames it) is never listed, so neither SnapshotFile() — used by
+// restore(), the InstallSnapshot handler and sendInstallSnapshot — can hand out a file whose label is complete and
+// whose content is not.
+func ruleSnapVisible() *Rule {
+	return &Rule{
+		ID: "SNAP-VISIBLE",
+		Text: "directories() keeps an entry only if it is a directory whose name matches the constant snapshot pattern, and that pattern cannot match the names os.MkdirTemp produces in NewSnapshotFile for unfinished snapshots " +
+			"(the pattern and filter clauses of SNAP-PICK; the ordering clauses are not part of this rule).",
+		Floor: 2,
+		Run: func(p *Program) []Obligation {
+			obs := newObSet("SNAP-VISIBLE")
+			snapPickDirectories(p, obs)
+			var out []Obligation
+			for _, o := range obs.list() {
+				if strings.HasPrefix(o.Construct, "result sorted") {
+					continue
+				}
+				out = append(out, o)
+			}
+			return out
+		},
+	}
+}
+
 // closeNamesSibling: (*snapshotFile).Close assigns the final directory field itself, to
 // filepath.Join(filepath.Dir(<tmpDir field>), …): the published directory is a sibling of the temporary one, i.e. it
 // lies in the snapshot directory.
